@@ -291,7 +291,34 @@ func registerEnvStubs() {
 	}
 	externals[an+"SafeParamsFor"] = paramsFor
 	externals[an+"ParamsFor"] = paramsFor
-	for _, n := range []string{"ExpandParameterWithRoot", "ExpandResponseWithRoot", "ExpandParameter", "ExpandResponse", "ExpandSchema", "ExpandSchemaWithBasePath"} {
+	// contract of spec.ExpandParameterWithRoot on a parameter that is a $ref into #/parameters of the root
+	// document: the parameter is dereferenced IN PLACE (the caller's object is overwritten with the shared
+	// parameter), an unresolvable reference is an error; anything else is left alone
+	externals["github.com/go-openapi/spec.ExpandParameterWithRoot"] = func(e *Exec, c *frame, a []Value) Value {
+		param, _ := a[0].(*Value)
+		if param == nil {
+			return Iface{}
+		}
+		pst := e.specType("Parameter").Underlying().(*types.Struct)
+		rt := e.specType("Ref").Underlying().(*types.Struct)
+		toks := e.refTokens(fieldByName((*param).(Structure), pst, "Refable", "Ref").(Structure)[fieldIndex(rt, "Ref")].(Structure))
+		if len(toks) == 0 {
+			e.run.noteStub("spec.ExpandParameterWithRoot: no-op returning nil on a reference-free argument")
+			return Iface{}
+		}
+		e.run.noteStub("spec.ExpandParameterWithRoot: a $ref into #/parameters is dereferenced in place; an unresolvable one is an error")
+		var sw *Value
+		if root, ok := a[1].(Iface); ok {
+			sw, _ = root.V.(*Value)
+		}
+		resolved, ok := e.sharedParam(sw, toks)
+		if !ok {
+			return e.newError("object has no key \"" + toks[len(toks)-1] + "\"")
+		}
+		e.storeMonitored(param, copyVal(resolved))
+		return Iface{}
+	}
+	for _, n := range []string{"ExpandResponseWithRoot", "ExpandParameter", "ExpandResponse", "ExpandSchema", "ExpandSchemaWithBasePath"} {
 		n := n
 		externals["github.com/go-openapi/spec."+n] = func(e *Exec, c *frame, a []Value) Value {
 			e.run.noteStub("spec." + n + ": no-op returning nil on a reference-free argument")
@@ -553,4 +580,19 @@ func (cl *cloner) clone(v Value) Value {
 		return out
 	}
 	return v
+}
+
+
+// storeMonitored overwrites *addr field by field, telling the frame monitor about every cell.
+func (e *Exec) storeMonitored(addr *Value, v Value) {
+	if dst, ok := (*addr).(Structure); ok {
+		if src, ok := v.(Structure); ok && len(src) == len(dst) {
+			for i := range dst {
+				e.storeMonitored(&dst[i], src[i])
+			}
+			return
+		}
+	}
+	e.noteStore(addr, v)
+	*addr = v
 }
